@@ -1441,3 +1441,60 @@ def rf121(run):
     if n < 3:
         raise F.AnalysisBroken('RF121: only %d creators of labels found' % n)
     return n
+
+
+# ---------------------------------------------------------------------------------------------
+# RF129: the mode of a scalar operand survives the binary form
+# ---------------------------------------------------------------------------------------------
+
+def rf129(run):
+    from lib import printexec as PE
+    from lib import regions as R
+    rule = 'RF129'
+    run.rule(rule, 'write_op, executed abstractly for INT and UINT operands with several values (negative, 0, small, large): the writer '
+                   'function chosen does not depend on the value, and the tags that function emits are the ones for which read_operand '
+                   'builds an operand of the same mode (write_int / TAG_I* -> MIR_new_int_op, write_uint / TAG_U* -> MIR_new_uint_op).  '
+                   'Instructions that demand an INT operand (prset, prbeq, prbne) reject the module read back otherwise')
+    tu = run.tu('mir')
+    f = tu.func('write_op')
+    g = tu.func('read_operand')
+    run.functions_analysed.update({('mir', f.name), ('mir', g.name)})
+    modes = dict(tu.enum('MIR_op_mode_t'))
+    # reader: constructor per tag family
+    gsw = [s_ for s_ in R.find_switches(g) if F.src(s_['c'][0]).strip() == 'tag']
+    if not gsw:
+        raise F.AnalysisBroken('read_operand: switch on the tag not found')
+    ctor = {}
+    for r in R.switch_regions(g, gsw[0]):
+        cs = {y.get('callee') for s_ in r['stmts'] for y in F.walk(s_) if y['k'] == 'CallExpr' and (y.get('callee') or '').startswith('MIR_new_')}
+        for cn, lo, hi in r['cases']:
+            if cn and cs:
+                ctor[cn] = sorted(cs)[0]
+    want_ctor = {'write_int': ('TAG_I1', 'MIR_new_int_op'), 'write_uint': ('TAG_U1', 'MIR_new_uint_op')}
+    n = 0
+    for mode, key, vals, want in (('MIR_OP_INT', 'op.u.i', (-5, 0, 5, 100000), 'write_int'), ('MIR_OP_UINT', 'op.u.u', (0, 5, 100000), 'write_uint')):
+        used = {}
+        for v in vals:
+            log = []
+            acc = {nm: (lambda a, e, x, nm=nm: (log.append(nm), 1)[1]) for nm in ('write_int', 'write_uint', 'write_float', 'write_double', 'write_ldouble',
+                                                                                  'write_reg', 'write_name', 'write_str', 'write_lab', 'put_byte')}
+            ex = PE.PrintExec(tu, {}, acc, {})
+            ex.retval = 'none'
+            try:
+                ex.run(f.body, {'op.mode': modes[mode], key: v})
+            except F.AnalysisBroken as e_:
+                raise F.AnalysisBroken('write_op (%s, %d): %s' % (mode, v, e_))
+            used[v] = tuple(log)
+        n += 1
+        fam = {u_ for u_ in used.values()}
+        ok = fam == {(want,)}
+        tag, c_want = want_ctor[want]
+        ok = ok and ctor.get(tag) == c_want
+        run.ob(rule, (mode,), ok, {'mode': mode, 'writer per value': {str(k): list(v_) for k, v_ in used.items()}, 'reader builds': ctor.get(tag)})
+        if not ok:
+            odd = [(k, v_) for k, v_ in used.items() if v_ != (want,)]
+            run.violation(rule, f, '%s operands' % mode, 'a %s operand is written by %s (value %s) instead of %s: read_operand turns the tags of that '
+                          'writer into an operand of another mode, so the module read back differs from the one written (and `prset` / `prbeq` / '
+                          '`prbne`, which demand an INT operand, are rejected)' %
+                          (mode, '/'.join(odd[0][1]) if odd else '?', odd[0][0] if odd else '?', want), line=f.line)
+    return n
